@@ -1003,8 +1003,9 @@ class QRCodeSequence(tuple):
         if m > 1 and isinstance(out, str):
             dot_idx = out.rfind('.')
             if dot_idx > -1:
-                out = out[:dot_idx] + '-{0:02d}-{1:02d}' + out[dot_idx:]
-                filename = lambda o, n: o.format(m, n)  # noqa: E731
+                # Do not use the filename as format string, it may contain curly braces
+                prefix, suffix = out[:dot_idx], out[dot_idx:]
+                filename = lambda o, n: f'{prefix}-{m:02d}-{n:02d}{suffix}'  # noqa: E731
         for n, qrcode in enumerate(self, start=1):
             qrcode.save(filename(out, n), kind=kind, **kw)
 
